@@ -166,6 +166,23 @@ pub fn c01_item<F: Fam>(ctx: &Ctx, ast: &Ast) {
             }
         }
         ctx.count("async_schedules", sched.len() as u64 * 2);
+        // the poll decoder under the same delivery schedules (future kept / re-created at every Pending)
+        let hl0 = dec::header(&bytes).map(|h| h.2).unwrap_or(2);
+        for cuts in &sched {
+            for pend in [false, true] {
+                let r = front::poll_chunked::<F>(&bytes, cuts, pend, pend, n);
+                ctx.trans(r.polls as u64);
+                if r.out() != want || r.total() != Some(n) || r.consumed != n || r.body() != Some(&bytes[hl0..]) || r.spurious_pending || r.swallowed_pending || r.uninit_exposed {
+                    ctx.violation(
+                        key::<F>("C01", ast, "poll-schedule"),
+                        format!("poll decoder under cuts {cuts:?} pending_between={pend}: {} total {:?} consumed {} of {n}, body equal: {}", r.out().short(), r.total(), r.consumed, r.body() == Some(&bytes[hl0..])),
+                        json!({"kind":"value-schedule","family":F::NAME,"ast":astjson::to_json(ast),"front":"poll","cuts":cuts,"pending":pend}),
+                    );
+                    break;
+                }
+            }
+        }
+        ctx.count("poll_schedules", sched.len() as u64 * 2);
     }
     // poll decoder: packet, exact total, raw body
     let p = front::poll_whole::<F>(&bytes);
